@@ -950,6 +950,60 @@ class Gen:
             self.st_probe(env, x)
         return True
 
+    def sc_partly_unknown(self, env):
+        """y = K; if d[i]: y = <opaque>; then binary operations with y as first / second / both operand(s).  On the path that
+        takes the branch CPython computes e.g. 5 + (-x), which only an explicit unknown state covers (C08 only)."""
+        if self.c09 or self.p.n_dec >= self.hard_max_dec:
+            return False
+        r, u = self.rng, self.uid
+        strings = r.random() < 0.25
+        y = self.fresh()
+        if strings:
+            src = r.choice(BENIGN_STR)
+            self.emit(f"{y} = {src}", kind="def", var=y, construct="const-assign")
+            self.define(env, y, "str", 1, "const-assign")
+        else:
+            self.emit(f"{y} = {self.int_lit()}", kind="def", var=y, construct="const-assign")
+            self.define(env, y, "int", 1, "const-assign")
+        i = self.p.n_dec
+        self.p.n_dec += 1
+        self.emit(f"if d[{i}]:", kind="branch", dec=i)
+        if strings:
+            self.emit(f"    {y} = opaques_{u}({r.choice(BENIGN_STR)})", kind="def", var=y, construct="opaque-unresolved-call", opaque=True)
+        elif r.random() < 0.5:
+            a, _, isvar = self.int_atom(env, maxcard=2, lit_p=0.3)
+            if not isvar:
+                a = self.rng.choice([v for v, t in sorted(env.types.items()) if t == "int"] or [y])
+            self.emit(f"    {y} = -{a}", kind="def", var=y, construct="opaque-unary-minus", opaque=True)
+        else:
+            self.emit(f"    {y} = opaque_{u}({self.int_lit()})", kind="def", var=y, construct="opaque-unresolved-call", opaque=True)
+        typ = "str" if strings else "int"
+        self.define(env, y, typ, 2, "partly-unknown")
+        ops = ["+"] if strings else ["+", "+", "-", "*"]
+
+        def other():
+            if strings:
+                vs = [v for v in self.vars_of(env, lambda t: t == "str") if v != y and env.card.get(v, 1) <= 2]
+                return r.choice(vs) if vs and r.random() < 0.5 else r.choice(BENIGN_STR)
+            vs = [v for v in self.vars_of(env, lambda t: t == "int") if v != y and env.card.get(v, 1) <= 2 and env.tag.get(v) != "partly-unknown"]
+            return r.choice(vs) if vs and r.random() < 0.6 else self.int_lit()
+
+        forms = ["second", "first"] + r.sample(["second", "first", "both"], r.choice([0, 1, 2]))
+        for pos in forms:
+            z = self.fresh()
+            op = r.choice(ops)
+            if pos == "second":
+                expr = f"{other()} {op} {y}"
+            elif pos == "first":
+                expr = f"{y} {op} {other()}"
+            else:
+                expr = f"{y} {op} {y}"
+            tag = f"binary-op-with-partly-unknown-{pos}-operand"
+            self.emit(f"{z} = {expr}", kind="def", var=z, construct=tag, operator=op, opaque=True)
+            self.define(env, z, typ, 4, tag, srcs=(y,))
+        self.p.features.add("scenario:partly-unknown:" + ("str" if strings else "int"))
+        return True
+
     def st_pass(self, env):
         self.emit("pass", kind="noop")
         self.p.features.add("pass")
@@ -992,7 +1046,8 @@ class Gen:
                 table = [(self.st_const_int, 12), (self.st_copy, 9), (self.st_binop_int, 12), (self.st_alloc, 7),
                          (self.st_alloc_coll, 4 if not self.c09 else 0), (self.st_field_write, 12), (self.st_field_read, 12),
                          (self.st_elem_write, 4 if not self.c09 else 0), (self.st_elem_read, 4 if not self.c09 else 0),
-                         (self.st_call, 14), (self.st_pass, 2), (self.sc_nested_late, 2), (self.sc_multi_exit, 2)]
+                         (self.st_call, 14), (self.st_pass, 2), (self.sc_nested_late, 2), (self.sc_multi_exit, 2),
+                         (self.sc_partly_unknown, 0 if self.c09 else 2)]
                 if not self.c09:
                     table += [(self.st_const_str, 10), (self.st_binop_str, 12)]
                 tot = sum(w for _, w in table)
@@ -1070,10 +1125,11 @@ class Gen:
         # is kept in reserve for the multi-exit helper
         want_late = self.rng.random() < 0.6
         want_exits = self.rng.random() < 0.6
-        if want_exits:
-            self.max_dec = self.hard_max_dec - 1
+        want_partly = (not self.c09) and self.rng.random() < 0.6
+        self.max_dec = self.hard_max_dec - int(want_exits) - int(want_partly)
         env = self.block(env, self.size // 2)
-        todo = [f for f, w in ((self.sc_nested_late, want_late), (self.sc_multi_exit, want_exits)) if w]
+        todo = [f for f, w in ((self.sc_nested_late, want_late), (self.sc_multi_exit, want_exits),
+                               (self.sc_partly_unknown, want_partly)) if w]
         self.rng.shuffle(todo)
         for f in todo:
             f(env)
@@ -1225,7 +1281,10 @@ def run_traced(prog, dvec, depth=3, budget=20000):
                 complete(frame, prev)
         return tracer
 
-    ns = {f"probe_{prog.uid}": probe, "__name__": "__verif__"}
+    # opaque_<uid> / opaques_<uid>: functions the analysed program does not define (unresolved calls for lian); their results
+    # are values no constant of the program equals
+    ns = {f"probe_{prog.uid}": probe, f"opaque_{prog.uid}": (lambda v: 1000003 + 7 * v),
+          f"opaques_{prog.uid}": (lambda v: "<" + v + ">"), "__name__": "__verif__"}
     try:
         code = compile(text, filename, "exec")
     except SyntaxError as e:
